@@ -2,6 +2,7 @@
 import itertools
 import graphs as gr
 import c12_ref as ref
+import c12_unit as unit
 
 PROP = "C12"
 RULE = ("every acyclic ADMG(n) and ancestral graph with undirected edges ANC(n) (all per-pair edge kinds), "
@@ -15,7 +16,11 @@ RULE = ("every acyclic ADMG(n) and ancestral graph with undirected edges ANC(n) 
         "(an edge and a node removed) and the call repeated, and a copy() of the input is observed too; the empty graph; a third of those graphs also as ADMG "
         "instances and ancestral ones as PAG instances (moral graph only); custom edge-type names "
         "('dir','bidir','undir') passed explicitly to mixed_edge_moral_graph, _anterior, m_separated on a third of those and an eighth "
-        "of the random graphs. DEEP stream (3 graphs of 200-280 nodes: district chain p->c0<->...<->c199<-q with "
+        "of the random graphs. UNIT-LEVEL stream: the helper _anterior called directly and compared with C12.Model.ant_of "
+        "(Run.v mode 3) on every graph with directed/undirected edges on <= 4 nodes x every start set and on 300/3000 graphs n=6..12 whose "
+        "start set holds all but 1-3 nodes, densely parents/neighbours of each other around a hub, the other nodes hanging on single "
+        "start nodes, under several insertion orders; 250/2500 criterion cases of the same shape (Z = almost all nodes); "
+        "DEEP stream (3 graphs of 200-280 nodes: district chain p->c0<->...<->c199<-q with "
         "side branches, long directed + undirected anterior chains, ladder of 70 districts) run with 120 frames of recursion head-room "
         "(HEAD is iterative there); their expectation is the Python transcription harness/c12_ref.py of the model's definitions, which "
         "on every other case of every run is itself compared with the extracted proved model ('reference-vs-model'); before every "
@@ -169,6 +174,20 @@ def gen_cases(tier, rng):
                     yield dict(c, kind="%s%d:admg" % (nm, n), obj="admg", rep=None if j % 2 else c["rep"])
                 if j % 3 == 2 and nm == "anc":
                     yield dict(c, kind="%s%d:pag" % (nm, n), obj="pag", qs=[], rep=None if j % 2 else c["rep"])
+    # UNIT level: the helper _anterior called directly (all graphs <= 4 nodes x all start sets; large start sets n = 6..12)
+    yield from unit.unit_cases(tier, rng, marks=False)
+    # the same large-conditioning-set shape for the criterion: Z = almost all nodes, densely parents of each other
+    for i in range(200 if tier == "quick" else 2500):
+        n = rng.randint(6, 9)
+        g, S = unit.hub_dag(rng, n)
+        qs = []
+        for _ in range(5):
+            x, y = rng.sample(S, 2) if rng.random() < 0.7 or len(S) == n else (rng.choice(S), rng.choice([v for v in g["V"] if v not in S]))
+            qs.append([[x], [y], [v for v in S if v not in (x, y)]])
+        c = {"kind": "hub", "g": g, "qs": qs, "oracle": False}
+        if i % 3 == 1:
+            c["_order"] = i
+        yield c
     # DEEP stream: recursion head-room of 120 frames, expectation from the Python transcription of the model
     for name, g, qs in deep_graphs():
         yield {"kind": "deep:" + name, "g": g, "qs": qs, "oracle": False, "deep": name, "_reclimit": 120}
@@ -186,7 +205,7 @@ def gen_cases(tier, rng):
         if i % 2 == 0:
             c["rep"] = 200000 + i
         yield c
-    for i in range(220 if tier == "quick" else 3000):
+    for i in range(160 if tier == "quick" else 3000):
         n = rng.randint(4, 8)
         r = rng.random()
         if r < 0.35:
@@ -207,12 +226,16 @@ def gen_cases(tier, rng):
 
 
 def encode(case):
+    if case.get("unit"):
+        return unit.encode(case)
     if case.get("deep"):
         return [1, gr.enc(gr.G([])), []]      # too long for the round-based Gallina closures: expectation from c12_ref
     return [0 if case.get("oracle") else 1, gr.enc(case["g"]), case.get("qs", [])]
 
 
 def decode(case, v):
+    if case.get("unit"):
+        return unit.decode(case, v)
     if case.get("deep"):
         m = ref.moral_graph(case["g"])
         return {"nodes": m["nodes"], "edges": m["edges"], "oracle": None, "ref": "only",
@@ -311,6 +334,8 @@ def _observe(M, lab, inv, kw, kwa, qs):
 
 
 def run_impl(case):
+    if case.get("unit"):
+        return unit.run_impl(case)
     import random
     import networkx as nx
     g = case["g"]
@@ -362,6 +387,8 @@ def run_impl(case):
 
 
 def compare(case, impl, model):
+    if case.get("unit"):
+        return unit.compare(case, impl, model)
     if "exc" in impl:
         return "exception"
     if impl.get("mutated"):
@@ -386,17 +413,23 @@ def compare(case, impl, model):
 
 
 def nontrivial(case, model):
+    if case.get("unit"):
+        return unit.nontrivial(case, model)
     g = case["g"]
     skel = {tuple(sorted(e)) for k in "DBU" for e in g[k]}
     return any(tuple(e) not in skel for e in model["edges"])
 
 
 def key(case):
+    if case.get("unit"):
+        return (case["unit"], gr.canon(case["g"]), case.get("_order"), len(case.get("starts", case.get("qs", []))))
     return (gr.canon(case["g"]), tuple(case.get("layers", ALL_LAYERS)), case.get("rep"), tuple(case.get("names") or ()),
             case.get("obj"), case.get("_lab"), case.get("gattr"))
 
 
 def classify(case, impl, model):
+    if case.get("unit"):
+        return unit.compare(case, impl, model)
     if "exc" in impl or impl.get("mutated"):
         return None
     if model["oracle"] is not None and model["oracle"] != model["crit"]:
@@ -428,6 +461,9 @@ def classify(case, impl, model):
 
 
 def shrink(case):
+    if case.get("unit"):
+        yield from unit.shrink(case)
+        return
     qs = case.get("qs", [])
     if len(qs) > 1:
         for q in qs:
